@@ -334,11 +334,13 @@ pub proof fn lemma_step_coll(t: TType, st: Seq<Fr>, r: Seq<u8>, d: nat, rem: nat
     requires head(t, st, r, d) == Some(rem), t == TType::List || t == TType::Set
     ensures r.len() >= 5, is_ttype_code(r[0]), bcount(false, r.skip(1)) is Some, rem >= 5,
             ({ let n = bcount(false, r.skip(1))->Some_0; let et = ttype_of(r[0]); let z = fixed_sz(et);
-               (n == 0 ==> kont(st, r.skip(5), d) == Some((rem - 5) as nat))
+               z * n == n * z
+               && (n == 0 ==> kont(st, r.skip(5), d) == Some((rem - 5) as nat))
                && ((n > 0 && z > 0) ==> (5 + n * z <= r.len() && rem >= 5 + n * z && kont(st, r.skip((5 + n * z) as int), d) == Some((rem - 5 - n * z) as nat)))
                && ((n > 0 && z == 0) ==> kont(st.push(Fr { a: et, b: et, n: n }), r.skip(5), d) == Some((rem - 5) as nat)) })
 {
     let n = bcount(false, r.skip(1))->Some_0; let et = ttype_of(r[0]); let z = fixed_sz(et);
+    assert(z * n == n * z) by (nonlinear_arith);
     let e = bskip_elems(false, et, r.skip(5), n, (d - 1) as nat)->Some_0;
     lemma_bskip_elems_bounds(false, et, r.skip(5), n, (d - 1) as nat);
     assert(r.skip(5).skip(e as int) =~= r.skip((5 + e) as int));
@@ -354,11 +356,14 @@ pub proof fn lemma_step_map(st: Seq<Fr>, r: Seq<u8>, d: nat, rem: nat)
     requires head(TType::Map, st, r, d) == Some(rem)
     ensures r.len() >= 6, is_ttype_code(r[0]), is_ttype_code(r[1]), bcount(false, r.skip(2)) is Some, rem >= 6,
             ({ let n = bcount(false, r.skip(2))->Some_0; let kt = ttype_of(r[0]); let vt = ttype_of(r[1]); let z = fixed_sz(kt) + fixed_sz(vt);
-               (n == 0 ==> kont(st, r.skip(6), d) == Some((rem - 6) as nat))
+               z * n == n * z
+               && (n == 0 ==> kont(st, r.skip(6), d) == Some((rem - 6) as nat))
                && ((n > 0 && fixed_sz(kt) > 0 && fixed_sz(vt) > 0) ==> (6 + n * z <= r.len() && rem >= 6 + n * z && kont(st, r.skip((6 + n * z) as int), d) == Some((rem - 6 - n * z) as nat)))
                && ((n > 0 && !(fixed_sz(kt) > 0 && fixed_sz(vt) > 0)) ==> kont(st.push(Fr { a: kt, b: vt, n: 2 * n }), r.skip(6), d) == Some((rem - 6) as nat)) })
 {
     let n = bcount(false, r.skip(2))->Some_0; let kt = ttype_of(r[0]); let vt = ttype_of(r[1]);
+    let z = fixed_sz(kt) + fixed_sz(vt);
+    assert(z * n == n * z) by (nonlinear_arith);
     let e = bskip_entries(false, kt, vt, r.skip(6), n, (d - 1) as nat)->Some_0;
     lemma_bskip_entries_bounds(false, kt, vt, r.skip(6), n, (d - 1) as nat);
     assert(r.skip(6).skip(e as int) =~= r.skip((6 + e) as int));
